@@ -359,6 +359,25 @@ OPS = [
 ]
 
 
+def _is_ok(v):
+    """Edge label of a branch on a Result's discriminant (as rendered by H.path_table) -> True (Ok edge) / False (Err
+    edge) / None (not tested). Independent of which variant the `match`/`if let` names explicitly: `0 => ..`,
+    `1 => .. else ..` and `otherwise` excluding one of the two variants all denote a definite variant."""
+    if v is None:
+        return None
+    if v is False:          # label 0
+        return True
+    if v is True:           # label 1, or `otherwise` excluding 0
+        return False
+    if isinstance(v, tuple) and v[0] == "otherwise":
+        rest = {0, 1} - set(v[1])
+        if rest == {0}:
+            return True
+        if rest == {1}:
+            return False
+    return None
+
+
 def _soft_fail(ctx, prog):
     n = 0
     for pat, perf, kind in OPS:
@@ -384,8 +403,7 @@ def _soft_fail(ctx, prog):
         for vals, res in H.path_table(fn, atoms, cls):
             # discriminants: 0 = Ok, 1 = Err
             o, pf, th = vals
-            o = None if o is None else (o is False)
-            pf = None if pf is None else (pf is False)
+            o, pf = _is_ok(o), _is_ok(pf)
             rows.add(((o, pf, th), res))
         bad = []
         for (o, pf, th), res in rows:
